@@ -471,7 +471,7 @@ pub fn run(run: &Run) {
         }
         run.watch(&case);
         // (a)
-        let (vs, stats) = c03::check_shape(*n, *edges, &dir.join("a"), &json!({"kind": "analysis-order", "n": n, "edges": edges}));
+        let (vs, stats) = c03::check_shape(*n, *edges, &dir.join("a"), &json!({"kind": "analysis-order", "n": n, "edges": edges, "main": i % 2 == 1}));
         run.add_states(stats.states);
         run.add_transitions(stats.events);
         run.add_traces(stats.histories);
